@@ -5,7 +5,8 @@
    Event fields: e, k (task), w (thread), n (count). MaxThreads comes with the Begin event. *)
 EXTENDS Naturals, FiniteSets, Sequences, TLC, Json, IOUtils
 CONSTANT Mode     \* "C07": task life cycle only; "C08": stop()/worker-count obligations as well
-VARIABLES x, l, ts, inClear, inStop, stopped, live, mx
+VARIABLES x, l, ts, inClear, inStop, stopped, live, mx,
+          mxHi   \* the largest maximum configured so far: workers spawned under it may still be alive after it was lowered
 Ev == ndJsonDeserialize(IOEnv.TRACE_EVENTS)
 Ix == ndJsonDeserialize(IOEnv.TRACE_INDEX)
 Diag == "TRACE_DIAG" \in DOMAIN IOEnv /\ IOEnv.TRACE_DIAG = "1"
@@ -16,16 +17,16 @@ E == Ev[l]
 \* PoolP with MaxThreads as a state variable (it is part of each recorded execution)
 Waiting == {k \in TTasks : ts[k] = "submitted"}
 TInit == /\ x \in 1..Len(Ix) /\ l = Ix[x].s + 1
-         /\ Ev[Ix[x].s].e = "Begin" /\ mx = Ev[Ix[x].s].n
+         /\ Ev[Ix[x].s].e = "Begin" /\ mx = Ev[Ix[x].s].n /\ mxHi = mx
          /\ ts = [k \in TTasks |-> "none"] /\ inClear = FALSE /\ inStop = FALSE /\ stopped = FALSE /\ live = {}
 
 P == INSTANCE PoolP WITH Tasks <- TTasks, Threads <- TThreads, MaxThreads <- 1   \* the maximum is passed per action (M variants)
 
 Is(name) == l <= Ix[x].e /\ E.e = name
-Adv == l' = l + 1 /\ UNCHANGED <<x, mx>>
+Adv == l' = l + 1 /\ UNCHANGED <<x, mx, mxHi>>
 TNext == \/ Is("Submit") /\ P!Submit(E.k) /\ Adv
          \/ Is("StartRet") /\ UNCHANGED <<ts, inClear, inStop, stopped, live>> /\ Adv
-         \/ Is("RunBegin") /\ P!RunBeginM(E.k, mx) /\ Adv
+         \/ Is("RunBegin") /\ P!RunBeginM(E.k, mxHi) /\ Adv   \* submission order only while there never was more than one worker
          \/ Is("RunEnd") /\ P!RunEnd(E.k) /\ Adv
          \/ Is("Destroy") /\ P!Destroy(E.k) /\ Adv
          \/ Is("ClearCall") /\ P!ClearCall /\ Adv
@@ -34,10 +35,11 @@ TNext == \/ Is("Submit") /\ P!Submit(E.k) /\ Adv
          \/ Is("StopRet") /\ P!StopRetM(E.n, Mode = "C08") /\ Adv
          \/ Is("WorkerStart") /\ P!WorkerStartM(E.w, IF Mode = "C08" THEN mx ELSE 1000) /\ Adv
          \/ Is("WorkerExit") /\ P!WorkerExit(E.w) /\ Adv
-         \/ Is("MaxSet") /\ mx' = E.n /\ l' = l + 1 /\ UNCHANGED <<x, ts, inClear, inStop, stopped, live>>
+         \/ Is("MaxSet") /\ mx' = E.n /\ mxHi' = (IF E.n > mxHi THEN E.n ELSE mxHi) /\ l' = l + 1
+                          /\ UNCHANGED <<x, ts, inClear, inStop, stopped, live>>
          \/ Is("Quiescent") /\ P!Quiescent /\ Adv
          \/ Is("Done") /\ P!Done /\ Adv
-TSpec == TInit /\ [][TNext]_<<x, l, ts, inClear, inStop, stopped, live, mx>>
+TSpec == TInit /\ [][TNext]_<<x, l, ts, inClear, inStop, stopped, live, mx, mxHi>>
 Accepted == (l = Ix[x].e + 1) => PrintT(<<"ACCEPTED", x>>)
 Progress == Diag => PrintT(<<"AT", x, l>>)
 =============================================================================
